@@ -27,7 +27,9 @@ impl log::Log for CallbackLogger {
 
         if self.enabled(record.metadata()) {
             let log_str = format!("{} - {}", record.level(), record.args());
-            let cstr = string_to_c_char(log_str);
+            // a message quoting a string with an interior NUL cannot become a C string: string_to_c_char would
+            // report that failure through this very logger, recursing until the stack overflows
+            let cstr = string_to_c_char(log_str.replace('\0', "\\0"));
 
             (self.callback.unwrap())(cstr, self.data.unwrap(), record.level() as i16);
         }
